@@ -9,6 +9,7 @@ CONSTANTS
   Fmts <- MC_FmtsOne
   MaxHist = 4
   ExtNames <- MC_ExtNone
+  MaxTimes <- MC_MaxTimesNone
   AsFound_AliasWhenNoCutoff = FALSE
   AsFound_PopOnStore = FALSE
   AsFound_BaseCsvDropsT = FALSE
